@@ -636,6 +636,42 @@ def check_C13(ctx):
                  sig_keys=("tr", "scheme", "kind", "creds", "require"))
 
 
+def check_C10(ctx):
+    ctx.exhaustive = True
+    l2_stateless(ctx, "CtxIsolation", "ctxiso",
+                 "CtxIsolation!Cases: {unary, stream} x server interceptor present x {top-level call, call made from inside an "
+                 "in-process handler, call made from inside a real gRPC handler} x caller deadline; the handler (and the "
+                 "interceptor) evaluate every fact of CtxIsolation!Facts on their context: plain keys hidden, outgoing metadata "
+                 "not outgoing, incoming metadata = caller's outgoing and not the enclosing call's, in-process peer, own method, "
+                 "caller's deadline and cancellation, ClientContext back-door, metadata not aliased in either direction",
+                 sig_keys=("kind", "nesting", "interceptor", "deadline"))
+
+
+def check_C18(ctx):
+    ctx.exhaustive = True
+    l2_stateless(ctx, "Cloner", "cloner",
+                 "Cloner!AdapterCases: {ProtoCloner, CodecCloner, CloneFunc, CopyFunc} x {Clone, Copy} x {test Message, HttpTrailer, "
+                 "Duration} x all 64 subsets of {scalars, bytes, repeated Any, maps, nested Any, unknown fields} x source "
+                 "representation {generated, dynamic} x destination {empty, populated, dynamic empty/populated, other message "
+                 "type, non-proto pointer}; equality, a reflective disjointness walk of the heap graphs and a source snapshot "
+                 "are recorded",
+                 expr="AdapterCases", sig_keys=("fam", "adapter", "op", "type", "srcrep", "dst"))
+    ctx.assumptions += ["the functions given to CloneFunc / CopyFunc are correct for equal-typed protobuf messages and return an "
+                        "error otherwise", "descriptors and other per-type metadata are shared by design and excluded from the walk"]
+
+
+def check_C06(ctx):
+    # (a) no read of the caller's request after Invoke returned: family A (gates)
+    family_a(ctx, {"nunary_q": 400, "nunary_t": 4000, "nsim_q": 60, "nsim_t": 600, "nfree_q": 40, "nfree_t": 400})
+    # (b) no shared memory, destination overwritten, mutation after send invisible
+    l2_stateless(ctx, "Cloner", "cloner",
+                 "Cloner!RpcCases: in-process RPCs of every kind, both directions, with the default cloner and each of the four "
+                 "adapters, for all 64 message shapes; the object the peer received is compared with the object sent (equality, "
+                 "reflective disjointness walk), receive destinations are pre-filled, and the sender mutates its object right "
+                 "after the send returned",
+                 expr="RpcCases", sig_keys=("fam", "cloner", "kind", "dir"))
+
+
 def check_C11(ctx):
     ctx.exhaustive = True
     l2_stateless(ctx, "HttpGate", "gate",
@@ -651,5 +687,5 @@ def check_C11(ctx):
 CHECKS = {
     "C01": check_C01, "C02": check_C02, "C03": check_C03, "C04": check_C04, "C05": check_C05,
     "C08": check_C08, "C20": check_C20,
-    "C14": check_C14, "C11": check_C11, "C07": check_C07, "C09": check_C09, "C12": check_C12, "C15": check_C15, "C16": check_C16, "C17": check_C17, "C13": check_C13,
+    "C14": check_C14, "C11": check_C11, "C07": check_C07, "C09": check_C09, "C12": check_C12, "C15": check_C15, "C16": check_C16, "C17": check_C17, "C13": check_C13, "C10": check_C10, "C18": check_C18, "C06": check_C06,
 }
